@@ -1,7 +1,7 @@
 (* C07 — Rule priority is a strict weak order; the winner is never outranked.
    Only statements here; every proof is [exact <lemma>]. *)
 From Coq Require Import List NArith Permutation.
-From UF Require Import Base.Bytes Model.Options Model.NetRule Model.Result Proofs.C07Proofs.
+From UF Require Import Base.Bytes Model.Options Model.NetRule Model.Result Proofs.C07Proofs Proofs.C06Proofs Proofs.C07Winner.
 
 (* The relation is the strict lexicographic order of a key built from the documented criteria
    (verdict class, $redirect, domain-specific over generic, number of modifiers). *)
@@ -33,6 +33,32 @@ Theorem C07_select_perm : forall l l' w w', Permutation l l' ->
   select l = Some w -> select l' = Some w' -> key w = key w'.
 Proof. exact select_perm. Qed.
 Print Assumptions C07_select_perm.
+
+(* the same at the two call sites.  NewMatchingResult: the candidates are the effective, non-special rules that the
+   page's $urlblock / $genericblock exceptions leave enabled; the selected rule is one of them, none of them outranks
+   it, a disabled rule never hides an enabled one, and the winner has the same key for every ordering of both lists *)
+Theorem C07_web_winner_maximal : forall rs src w, mr_basic (new_matching_result rs src) = Some w ->
+  In w (candidates rs src) /\ forall x, In x (candidates rs src) -> is_higher_priority x w = false.
+Proof. exact web_winner_maximal. Qed.
+Print Assumptions C07_web_winner_maximal.
+Theorem C07_web_winner_enabled : forall rs src w, mr_basic (new_matching_result rs src) = Some w ->
+  In w (eff rs) /\ candidate src w = true.
+Proof. exact web_winner_enabled. Qed.
+Print Assumptions C07_web_winner_enabled.
+Theorem C07_web_winner_exists : forall rs src x, In x (candidates rs src) ->
+  exists w, mr_basic (new_matching_result rs src) = Some w.
+Proof. exact web_winner_exists. Qed.
+Print Assumptions C07_web_winner_exists.
+Theorem C07_web_winner_perm : forall rs rs' src src' w w', Permutation rs rs' -> Permutation src src' ->
+  mr_basic (new_matching_result rs src) = Some w -> mr_basic (new_matching_result rs' src') = Some w' ->
+  key w = key w'.
+Proof. exact web_winner_perm. Qed.
+Print Assumptions C07_web_winner_perm.
+(* GetDNSBasicRule *)
+Theorem C07_dns_winner_maximal : forall rs w, get_dns_basic_rule rs = Some w ->
+  In w (dns_candidates rs) /\ forall x, In x (dns_candidates rs) -> is_higher_priority x w = false.
+Proof. exact dns_winner_maximal. Qed.
+Print Assumptions C07_dns_winner_maximal.
 
 (* adding a modifier makes a rule strictly higher than the original *)
 Theorem C07_add_option : forall r k, N.testbit_nat (nr_enabled r) k = false ->
